@@ -456,10 +456,9 @@ Qed.
 
 Lemma underscore_from_fix upper : forall n t last ne, (length t <= n)%nat ->
   snake_tail upper t = true -> last_ok upper last = true -> (no_lead t = false -> ne = true) ->
-  (forall c r, t = c :: r -> (c =? 95) = false -> True) ->
   underscore_from t upper last ne = t.
 Proof.
-  induction n as [|n IH]; intros t last ne Hlen Hs Hl Hne _.
+  induction n as [|n IH]; intros t last ne Hlen Hs Hl Hne.
   - destruct t; [reflexivity | cbn [length] in Hlen; lia].
   - destruct t as [|c r]; [reflexivity|]. cbn [length] in Hlen. cbn [snake_tail] in Hs.
     destruct (c =? 95) eqn:E95.
@@ -474,31 +473,50 @@ Proof.
       cbn [underscore_from].
       destruct (out_char_classes upper x Hx) as [[-> [A [B|[B C]]]] | [-> [A|[A [B C]]]]].
       * rewrite A, B. cbn [andb is_lower_or_not_alnum]. f_equal. f_equal.
-        apply (IH r' LUpper true); [lia | exact Hs | reflexivity | reflexivity | trivial].
+        apply (IH r' LUpper true); [lia | exact Hs | reflexivity | reflexivity].
       * rewrite A, B, C. cbn [andb is_not_alnum]. f_equal. f_equal.
-        apply (IH r' LInitial true); [lia | exact Hs | reflexivity | reflexivity | trivial].
+        apply (IH r' LInitial true); [lia | exact Hs | reflexivity | reflexivity].
       * rewrite A. cbn [andb is_not_alnum]. f_equal. f_equal.
-        apply (IH r' LLower true); [lia | exact Hs | reflexivity | reflexivity | trivial].
+        apply (IH r' LLower true); [lia | exact Hs | reflexivity | reflexivity].
       * rewrite A, B, C. cbn [andb is_not_alnum]. f_equal. f_equal.
-        apply (IH r' LInitial true); [lia | exact Hs | reflexivity | reflexivity | trivial].
+        apply (IH r' LInitial true); [lia | exact Hs | reflexivity | reflexivity].
     + apply andb_true_iff in Hs as [Hc Hs]. cbn [underscore_from].
       destruct (out_char_classes upper c Hc) as [[-> [A [B|[B C]]]] | [-> [A|[A [B C]]]]].
       * rewrite A, B. unfold last_ok in Hl. apply negb_true_iff in Hl. rewrite Hl, andb_false_r.
         rewrite (next_is_lower_snake_upper r Hs), andb_false_r. f_equal.
-        apply (IH r LUpper true); [lia | exact Hs | reflexivity | reflexivity | trivial].
+        apply (IH r LUpper true); [lia | exact Hs | reflexivity | reflexivity].
       * rewrite A, B, C. unfold last_ok in Hl. apply negb_true_iff in Hl.
         assert (is_not_alnum last = false) by (destruct last; try reflexivity; discriminate Hl).
         rewrite H, andb_false_r. f_equal.
-        apply (IH r LInitial true); [lia | exact Hs | reflexivity | reflexivity | trivial].
+        apply (IH r LInitial true); [lia | exact Hs | reflexivity | reflexivity].
       * rewrite A. unfold last_ok in Hl. apply negb_true_iff in Hl. rewrite Hl, andb_false_r. f_equal.
-        apply (IH r LLower true); [lia | exact Hs | reflexivity | reflexivity | trivial].
+        apply (IH r LLower true); [lia | exact Hs | reflexivity | reflexivity].
       * rewrite A, B, C. unfold last_ok in Hl. apply negb_true_iff in Hl. rewrite Hl, andb_false_r. f_equal.
-        apply (IH r LInitial true); [lia | exact Hs | reflexivity | reflexivity | trivial].
+        apply (IH r LInitial true); [lia | exact Hs | reflexivity | reflexivity].
 Qed.
 
 Lemma underscore_idempotent s upper : underscore (underscore s upper) upper = underscore s upper.
 Proof.
   destruct (underscore_shape s upper) as [A B]. unfold underscore at 1.
-  apply (underscore_from_fix upper (length (underscore s upper))); [lia | exact A | destruct upper; reflexivity | | trivial].
+  apply (underscore_from_fix upper (length (underscore s upper))); [lia | exact A | destruct upper; reflexivity |].
   intros H. rewrite B in H. discriminate.
+Qed.
+
+Lemma run_sources_independent : forall w1 w2 fields args1 args2 s1 s2 rest1 rest2,
+  w_set w1 = w_set w2 ->
+  run w1 fields args1 = RParse (POk s1 rest1) -> run w2 fields args2 = RParse (POk s2 rest2) ->
+  exists fs st0 asg1 asg2 ov1 ov2,
+    new_flag_set (w_set w1) fields = NOk fs st0
+    /\ arg_parse (table_of fs) args1 = Ok asg1 rest1 /\ arg_parse (table_of fs) args2 = Ok asg2 rest2
+    /\ json_overlay w1 asg1 = Some ov1 /\ json_overlay w2 asg2 = Some ov2
+    /\ forall f, In f fs ->
+         top_source (cli_of asg1 f) (env_of w1 f) (json_of ov1 f) = top_source (cli_of asg2 f) (env_of w2 f) (json_of ov2 f) ->
+         get s1 (fname f) = get s2 (fname f).
+Proof.
+  intros w1 w2 fields args1 args2 s1 s2 rest1 rest2 Ho H1 H2.
+  destruct (run_priority _ _ _ _ _ H1) as [fs [st0 [asg1 [ov1 [N1 [A1 [J1 P1]]]]]]].
+  destruct (run_priority _ _ _ _ _ H2) as [fs' [st0' [asg2 [ov2 [N2 [A2 [J2 P2]]]]]]].
+  rewrite <- Ho, N1 in N2. injection N2 as <- <-. exists fs, st0, asg1, asg2, ov1, ov2. repeat split; try assumption.
+  intros f Hf E. destruct (P1 f Hf) as [v1 [G1 W1]]. destruct (P2 f Hf) as [v2 [G2 W2]].
+  rewrite G1, G2. f_equal. exact (sources_independent w1 w2 fs asg1 asg2 ov1 ov2 f v1 v2 Ho W1 W2 E Hf).
 Qed.
